@@ -16,7 +16,8 @@ implementation must both reject (any exception = rejected); most requests are SE
 caller-owned convention objects (list or tuple of labels, component array) that must come back unchanged, each
 result compared with the model ("right" then "left", twice "left", ...); the overlap matrix of one spherical shell
 (implementation only) must be the identity to 1e-8; once per run the generic-field model `Model/Spherical.v`
-(command 4, used by the integral checks) is compared with the exact model for l <= 4."""
+(command 4, used by the integral checks) is compared with the exact model for l <= 4.  The component array is
+handed over in every signed integer width (int8 .. int64; key "cart_dtype") and as plain Python sequences."""
 import itertools
 import json
 import math
@@ -40,7 +41,13 @@ RULE = ("generate_transformation vs exact r*sqrt(q) model: default conventions f
         "streams, every 5th l=3 sample): ONE labels object (a list, or a tuple when as_tuple) and ONE component array "
         "are handed to a sequence of 2-3 calls ('right','left','left' / 'left','left','right' / ...); after every call, "
         "returning or raising, the objects must be element-wise what the caller built, and EVERY result of the sequence "
-        "is compared with the exact model for its side. A case is non-trivial "
+        "is compared with the exact model for its side. DTYPE of the caller's component array: stream 'dtype-sweep' = the "
+        "default convention for every l in 0..10 with cartesian_order as int8 / int16 / int32 / int64 ndarray and as a "
+        "plain list of lists / list of tuples; the random-convention stream (l 3..10) cycles int8, int16, int32, int64, "
+        "list, tuples over its cases (components never exceed 10; unsigned arrays are not generated: 2a-1 wraps for a=0 "
+        "and HEAD returns NaN for them at every l); an ndarray of any signed width must give the model's matrix, a plain "
+        "Python sequence may be rejected (documented TypeError) or must give the model's matrix; evidence counters "
+        "'cartesian_order as <dtype>'. A case is non-trivial "
         "when l>=1 (more than one function) or when it belongs to the malformed stream; distinct by the hash of the "
         "exact request; a block of permutations counts as one distinct case")
 ASSUMPTIONS = [
@@ -57,6 +64,45 @@ TOL = 1e-12
 SIDES = ("left", "right")
 # sequences of calls made with ONE pair of convention objects ("right" then "left"; twice "left"; ...)
 REUSE = (["right", "left", "left"], ["left", "left", "right"], ["left", "right"], ["right", "right", "left"])
+
+
+# dtype of the caller's Cartesian component array (components never exceed 10, so every signed integer width holds them;
+# the docstring asks for "np.ndarray(L, 3)" only).  Absent key = the platform default of np.array(list of ints).
+# "list" / "tuples" are plain Python sequences: the function documents a TypeError for them, so a rejection is
+# accepted; if they are ever accepted the matrix must be the model's (nothing else is demanded).
+# Unsigned arrays are NOT generated: 2*a-1 wraps for a = 0 and generate_transformation of /repo HEAD returns NaN
+# rows for them at every l (noted in the round-d report to the lead).
+CART_DTYPES = ("int8", "int16", "int32", "int64", "int8", "int16", "list", "tuples")
+ARRAY_DTYPES = ("int8", "int16", "int32", "int64")
+
+
+def with_dtype(case, k):
+    """cycle the dtype of the component array deterministically over the cases of a stream"""
+    case["cart_dtype"] = CART_DTYPES[k % len(CART_DTYPES)]
+    return case
+
+
+def build_carts(case):
+    """the caller-owned component object of a request and an independent copy of what the caller built"""
+    dt = case.get("cart_dtype")
+    rows = [[int(x) for x in c] for c in case["carts"]]
+    if dt == "list":
+        return [list(c) for c in rows], [list(c) for c in rows]
+    if dt == "tuples":
+        return [tuple(c) for c in rows], [tuple(c) for c in rows]
+    npdt = np.dtype(dt) if dt else np.dtype(int)
+    ok = all(len(c) == 3 for c in rows)
+    a = np.array(rows, dtype=npdt).reshape(len(rows), 3) if (rows and ok) else (
+        np.array(rows, dtype=npdt) if rows else np.zeros((0, 3), npdt))
+    return a, a.copy()
+
+
+def carts_unchanged(carts, carts0):
+    if isinstance(carts0, np.ndarray):
+        return (isinstance(carts, np.ndarray) and carts.shape == carts0.shape and carts.dtype == carts0.dtype
+                and bool(np.array_equal(carts, carts0)))
+    return (type(carts) is type(carts0) and len(carts) == len(carts0)
+            and all(type(a) is type(b) and a == b for a, b in zip(carts, carts0)))
 
 
 def with_reuse(case, k):
@@ -152,8 +198,8 @@ def eval_gen(model, case):
 
     labels0 = list(case["labels"])
     labels = tuple(labels0) if case.get("as_tuple") else list(labels0)
-    carts = np.array(case["carts"], dtype=int).reshape(len(case["carts"]), 3) if case["carts"] else np.zeros((0, 3), int)
-    carts0 = carts.copy()
+    carts, carts0 = build_carts(case)
+    plain = case.get("cart_dtype") in ("list", "tuples")
     sides = case.get("reuse") or [case["side"]]
     models = {}
     for k, side in enumerate(sides):
@@ -167,11 +213,16 @@ def eval_gen(model, case):
         if not same_labels:
             d = {"kind": "convention-object-changed", "object": "spherical_order (%s)" % type(labels).__name__,
                  "impl": "after the call: %r" % (list(labels),), "model": "as passed: %r" % (labels0,)}
-        elif carts.shape != carts0.shape or carts.dtype != carts0.dtype or not np.array_equal(carts, carts0):
-            d = {"kind": "convention-object-changed", "object": "cartesian_order",
-                 "impl": "after the call: %r" % (carts.tolist(),), "model": "as passed: %r" % (carts0.tolist(),)}
+        elif not carts_unchanged(carts, carts0):
+            d = {"kind": "convention-object-changed", "object": "cartesian_order (%s)" % (case.get("cart_dtype") or "int"),
+                 "impl": "after the call: %r" % (np.asarray(carts).tolist(),),
+                 "model": "as passed: %r" % (np.asarray(carts0).tolist(),)}
+        elif plain and st != "ok":
+            d = None        # a plain Python sequence instead of an array: documented TypeError (any exception = rejected)
         else:
             d = compare_outcome(st, impl, res)
+            if d is not None and case.get("cart_dtype"):
+                d["cartesian_order_dtype"] = case["cart_dtype"]
         if d is not None:
             if len(sides) > 1:
                 d["call"] = "call %d of %d with the same objects, apply_from=%r (sequence %r)" % (k + 1, len(sides), side, sides)
@@ -220,6 +271,7 @@ def eval_case(model, case):
         d = eval_gen(model, case)
         nontriv = case["l"] >= 1 or case.get("stream") == "malformed"
         return {"detail": d, "nontrivial": nontriv,
+                "stats": {"cartesian_order as %s" % (case.get("cart_dtype") or "default int array"): 1},
                 "tag": "%s%s l=%d" % (case.get("stream", "gen"), " reused-objects" if case.get("reuse") else "", case["l"])}
     if kind == "permblock":
         fails = []
@@ -369,6 +421,10 @@ def gen_cases(tier, seed):
         for side in SIDES:
             cases.append(with_reuse({"kind": "gen", "l": l, "carts": default_comps(l), "labels": default_labels(l),
                                      "side": side, "as_tuple": side == "right", "stream": "default"}, l))
+        # the same request with the component array in every integer width (and as plain Python sequences)
+        for k, dt in enumerate(ARRAY_DTYPES + ("list", "tuples")):
+            cases.append({"kind": "gen", "l": l, "carts": default_comps(l), "labels": default_labels(l),
+                          "side": SIDES[(l + k) % 2], "as_tuple": k % 2 == 1, "stream": "dtype-sweep", "cart_dtype": dt})
     # Cartesian orders: all permutations l <= 2
     for l in (0, 1, 2):
         for k, p in enumerate(itertools.permutations(default_comps(l))):
@@ -408,8 +464,9 @@ def gen_cases(tier, seed):
             if k % 3 != 2:
                 rng.shuffle(labs)
                 labs = [("-" + s) if rng.random() < 0.4 else s for s in labs]
-            cases.append(with_reuse({"kind": "gen", "l": l, "carts": comps, "labels": labs, "side": SIDES[k % 2],
-                                     "as_tuple": k % 4 == 0, "stream": "random-convention"}, k // 2))
+            cases.append(with_dtype(with_reuse({"kind": "gen", "l": l, "carts": comps, "labels": labs,
+                                                "side": SIDES[k % 2], "as_tuple": k % 4 == 0,
+                                                "stream": "random-convention"}, k // 2), k + l))
     cases += malformed_cases(rng, tier)
     # overlap of one spherical shell
     lmax = 4 if quick else 6
@@ -426,6 +483,10 @@ def shrink_case(case):
     if case.get("kind") != "gen":
         return
     l = case["l"]
+    if case.get("cart_dtype"):
+        c = dict(case)
+        del c["cart_dtype"]
+        yield c
     if case["carts"] != default_comps(l) and len(case["carts"]) == len(default_comps(l)):
         c = dict(case)
         c["carts"] = default_comps(l)
